@@ -582,4 +582,36 @@ theorem strVal_of_ne (d : Dialect) (s : List Char) (h : d = .oracle → s ≠ []
   · simp [hd, h hd]
   · simp [hd]
 
+/-! ### pinned parameters and the translator cache -/
+
+theorem getitemSlice_snd (recv : Recv) (start stop : GArg) (f : Fixed) :
+    (getitemSlice recv start stop f).2 = (paramToConst (paramToConst f true start).2 false stop).2 := by
+  unfold getitemSlice
+  simp only []
+  split
+  · rfl
+  · split <;> rfl
+
+theorem paramToConst_rebind (f : Fixed) (isStart : Bool) (g : GArg) (vars : String → Option Int)
+    (h : ∀ k iv, (paramToConst f isStart g).2.lookup k = some iv → vars k = some iv) :
+    paramToConst f isStart (GArg.rebind vars g) = paramToConst f isStart g := by
+  rcases g with _ | a | ⟨k, v⟩ | x <;> simp only [GArg.rebind]
+  cases hl : f.lookup k with
+  | some iv => simp [paramToConst, hl]
+  | none =>
+    have := h k (v.getD (if isStart then 0 else -1)) (by simp [paramToConst, hl])
+    simp [paramToConst, hl, this]
+
+theorem lookup_mono (f : Fixed) (isStart : Bool) (g : GArg) (k : String) (iv : Int)
+    (h : f.lookup k = some iv) : (paramToConst f isStart g).2.lookup k = some iv := by
+  rcases g with _ | a | ⟨k', v⟩ | x <;> simp only [paramToConst] <;> try exact h
+  cases hl : f.lookup k' with
+  | some iv' => simpa using h
+  | none =>
+    have hne : (k == k') = false := by
+      cases hk : (k == k') with
+      | false => rfl
+      | true => have := eq_of_beq hk; subst this; rw [h] at hl; cases hl
+    simp [List.lookup, hne, h]
+
 end PonyVerif.Model.SqlStr
